@@ -197,6 +197,7 @@ def fault(ctx, phases=None, kinds=None, cancel=False):
                 else:
                     c["proto"].data_received(full_cl)
 
+    before_tasks = set(asyncio.all_tasks(loop))  # whatever the session / connector keep running on their own
     holder = None
     if phase == "pool-wait":
         # another request of the same session holds the only slot; it has no timeout of its own
@@ -265,7 +266,8 @@ def fault(ctx, phases=None, kinds=None, cancel=False):
     # no background task of the ended request keeps running (body writer, connect attempt, ...)
     if not first_ok:
         loop.run_ready()
-        alive = [t for t in asyncio.all_tasks(loop) if not t.done() and t is not t1 and t is not holder]
+        alive = [t for t in asyncio.all_tasks(loop) if not t.done() and t is not t1 and t is not holder
+                 and t not in before_tasks]
         if alive:
             return fail("background-task-left-running-after-timeout-or-cancel",
                         tasks=[str(getattr(t.get_coro(), "__qualname__", t.get_coro()))[:80] for t in alive][:4])
